@@ -215,10 +215,16 @@ def crash_reason(ctx, exe, line, seed, idx):
     env["GORACE"] = "halt_on_error=1 exitcode=66"
     import subprocess
     from vlib import sh
-    rc, out = sh("ulimit -v 8000000; exec timeout 120 '%s' --seed %d --start %d" % (exe, seed, idx),
-                 input=("\n" * idx + line + "\n").encode(), env=env, cwd=ctx.scratch, stderr=subprocess.STDOUT)
-    m = re.search(r"(panic: [^\n]*|WARNING: DATA RACE|fatal error: [^\n]*)", out)
-    return (m.group(1) if m else "rc=%d" % rc)[:200]
+    why = "not reproduced alone"
+    for _ in range(3):
+        rc, out = sh("ulimit -v 8000000; exec timeout 120 '%s' --seed %d --start %d" % (exe, seed, idx),
+                     input=("\n" * idx + line + "\n").encode(), env=env, cwd=ctx.scratch, stderr=subprocess.STDOUT)
+        m = re.search(r"(panic: [^\n]*|WARNING: DATA RACE|fatal error: [^\n]*)", out)
+        if m:
+            return m.group(1)[:200]
+        if rc != 0:
+            why = "rc=%d" % rc
+    return why
 
 
 def run(ctx):
@@ -279,12 +285,14 @@ def run(ctx):
             [{"case": lines[i], "impl": h[:800], "model": m} for i, (h, m) in sorted(rejected.items())[:20]])
 
     nfail = 0
+    ncrash = 0
     for (i, verdict, ha, hb) in res:
         if verdict == "ok":
             continue
         nfail += 1
         why = verdict
-        if verdict.startswith("CRASH"):
+        if verdict.startswith("CRASH") and ncrash < 5:   # the first few crashes are re-run alone to get the panic / race text
+            ncrash += 1
             why = "CRASH:" + crash_reason(ctx, impl, lines[i], ctx.seed, i)
         # the key identifies the scenario (schedule level removed): stable across runs and seeds
         key = "sc:" + sha(re.sub(r" G\d+ ", " ", lines[i], count=1))
